@@ -1,0 +1,74 @@
+//! Crate-internal accessors for the `verif` feature. See [`crate::verif`].
+
+//local shortcuts
+use crate::prelude::*;
+use crate::verif::Snapshot;
+
+//third-party shortcuts
+use bevy::prelude::*;
+
+//standard shortcuts
+
+
+//-------------------------------------------------------------------------------------------------------------------
+
+pub(crate) fn fill_resources(world: &World, snap: &mut Snapshot)
+{
+    snap.syscommand_counter = **world.resource::<SyscommandCounter>();
+    snap.buffered_len = world.resource::<CobwebCommandQueue<BufferedSyscommand>>().verif_len();
+
+    let (n, r) = world.resource::<SystemEventAccessTracker>().verif_state();
+    snap.prepared_len[0] = n;
+    snap.reacting[0] = r;
+    let (n, r) = world.resource::<EntityReactionAccessTracker>().verif_state();
+    snap.prepared_len[1] = n;
+    snap.reacting[1] = r;
+    let (n, r) = world.resource::<EventAccessTracker>().verif_state();
+    snap.prepared_len[2] = n;
+    snap.reacting[2] = r;
+    let (n, r, h) = world.resource::<DespawnAccessTracker>().verif_state();
+    snap.prepared_len[3] = n;
+    snap.reacting[3] = r;
+    snap.despawn_handle_held = h;
+
+    snap.table_entries = world.resource::<ReactCache>().verif_table_entries();
+}
+
+//-------------------------------------------------------------------------------------------------------------------
+
+pub(crate) fn fill_queries(world: &mut World, snap: &mut Snapshot)
+{
+    let mut storages = world.query::<&SystemCommandStorage>();
+    for storage in storages.iter(world)
+    {
+        snap.storages += 1;
+        if !storage.verif_has_callback() { snap.storages_without_callback += 1; }
+    }
+
+    let mut reactors = world.query::<&EntityReactors>();
+    for entity_reactors in reactors.iter(world)
+    {
+        snap.entity_reactor_entities += 1;
+        snap.entity_reactor_entries += entity_reactors.verif_len();
+    }
+
+    let mut counters = world.query::<&DataEntityCounter>();
+    snap.data_entities = counters.iter(world).count();
+}
+
+//-------------------------------------------------------------------------------------------------------------------
+
+pub(crate) fn count_system_event_data<T: Send + Sync + 'static>(world: &mut World) -> usize
+{
+    let mut data = world.query::<&SystemEventData<T>>();
+    data.iter(world).count()
+}
+
+//-------------------------------------------------------------------------------------------------------------------
+
+pub(crate) fn has_entity_world_local<T: EntityWorldReactor>(world: &World, entity: Entity) -> bool
+{
+    world.get::<EntityWorldLocal<T>>(entity).is_some()
+}
+
+//-------------------------------------------------------------------------------------------------------------------
